@@ -16,6 +16,7 @@ import lbry.wallet  # noqa: F401  (import order)
 from lbry.blob.blob_file import BlobFile, BlobBuffer
 from lbry.blob.blob_manager import BlobManager
 from lbry.conf import Config
+from lbry.extras.daemon.storage import SQLiteStorage
 from lbry.error import InvalidBlobHashError, InvalidDataError
 
 import vlib
@@ -45,8 +46,14 @@ class HarnessExecutor(concurrent.futures.ThreadPoolExecutor):
         self.jobs.append((f, fn, a, k))
         return f
 
+    def pending(self):
+        self.jobs = [j for j in self.jobs if not j[0].cancelled()]      # a real pool drops cancelled work items
+        return len(self.jobs)
+
     def run_one(self):
         f, fn, a, k = self.jobs.pop(0)
+        if not f.set_running_or_notify_cancel():
+            return
         try:
             f.set_result(fn(*a, **k))
         except BaseException as e:  # noqa
@@ -65,6 +72,8 @@ class Impl:
         already contain a file named after the hash (restart); the manager's completion callback (database
         bookkeeping, C18) is replaced by a counter"""
         self.loop = asyncio.new_event_loop()
+        self.now = 1000.0                     # virtual clock: time passes only at `advance` operations
+        self.loop.time = lambda: self.now
         asyncio.set_event_loop(self.loop)
         self.ex = HarnessExecutor()
         self.loop.set_default_executor(self.ex)
@@ -92,7 +101,9 @@ class Impl:
         self.completed += 1
 
     def qlen(self):
-        return sum(1 for hd in self.loop._ready if not hd._cancelled)
+        """callbacks the loop would run now: the ready queue plus timers that are due on the virtual clock"""
+        due = sum(1 for hd in self.loop._scheduled if not hd._cancelled and hd._when <= self.now)
+        return sum(1 for hd in self.loop._ready if not hd._cancelled) + due
 
     def _once(self):
         self.loop.call_soon(self.loop.stop)
@@ -128,14 +139,16 @@ class Impl:
                     if n > 200:
                         raise RuntimeError('loop does not become idle')
             elif name == 'io':
-                if self.ex.jobs:
+                if self.ex.pending():
                     self.ex.run_one()
+            elif name == 'advance':
+                self.now += op[1]
             elif name == 'read':
                 with self.blob.reader_context() as r:
                     res = ['read', r.read()]
             elif name == 'delete':
                 # modelled only when nothing of this blob is in flight
-                if self.qlen() == 0 and not self.ex.jobs and not self.blob.writing.is_set():
+                if self.qlen() == 0 and not self.ex.pending() and not self.blob.writing.is_set():
                     self.blob.delete()
                 else:
                     res = 'skipped'
@@ -188,7 +201,7 @@ class Impl:
             'qlen': self.qlen(),
             'writing': self.blob.writing.is_set(),
             'verified': self.blob.get_is_verified(),
-            'io': len(self.ex.jobs),
+            'io': self.ex.pending(),
             'store': store,
             'completed': self.completed,
             'extra_files': extra,
@@ -515,6 +528,15 @@ def pick_len(rng):
     return rng.randrange(65, 513)
 
 
+def settle(sess):
+    """never leave an executor job behind: on the unchanged tree there is at most one, so this adds nothing"""
+    n = 0
+    while sess.trace and sess.trace[-1][1]['io'] > 0 and n < 4:
+        sess.do(['io'])
+        sess.do(['drain'])
+        n += 1
+
+
 def gen_case(rng, run):
     """adaptive random schedule: executes on the implementation while generating; returns (case, impl_trace, monitor)"""
     kind = rng.choice(['file', 'buffer'])
@@ -592,8 +614,10 @@ def gen_case(rng, run):
                 sess.do(['closew', rng.choice(live)[0]])
             elif c < 0.955:
                 sess.do(['closeblob'])
-            elif c < 0.965:
+            elif c < 0.960:
                 sess.do(['read'])
+            elif c < 0.965:
+                sess.do(['advance', rng.choice([1, 4, 6, 30])])
             elif c < 0.975:
                 res, _ = sess.do(['delete'])
                 if res == 'ok':
@@ -609,8 +633,13 @@ def gen_case(rng, run):
                 sess.do(['len', rng.choice([L, L + 1, 0, 5])])
         if rng.random() < 0.1 and live:
             sess.do(['write', rng.choice(live)[0], b'\x00'.hex()])     # write after the end
+        if rng.random() < 0.2:
+            # a busy executor: the write job sits in the pool's queue for a long (virtual) time
+            for o in (['drain'], ['advance', rng.choice([5, 6, 60])], ['drain']):
+                sess.do(o)
         for o in (['drain'], ['io'], ['drain']):
             sess.do(o)
+        settle(sess)
         return sess.result()
     finally:
         sess.close()
@@ -667,6 +696,7 @@ def gen_redownload(rng, run):
                 run.count('reset:' + kind)
         for o in (['drain'], ['io'], ['drain']):
             sess.do(o)
+        settle(sess)
         return sess.result()
     finally:
         sess.close()
@@ -715,6 +745,32 @@ def run_fixed(case):
         return sess.result()
     finally:
         sess.close()
+
+
+def read_everywhere_family():
+    """deterministic: a reader tries the blob after EVERY operation of a delivery that advances one loop iteration at a
+    time - before the last byte, between "last byte delivered" and the executor job, between the job and
+    update_events, and afterwards - for both blob classes, one or two peers, two chunkings.  Clause: readable only
+    if verified, and then exactly the named bytes (Monitor.step, `read`)."""
+    data = bytes(range(0x21, 0x21 + 12))
+    h = sha(data).hex()
+    for kind in ('file', 'buffer'):
+        for cb in (True, False):
+            for two in (False, True):
+                for cuts in ([12], [5, 12], [1, 11, 12]):
+                    ops = [['read'], ['len', 12], ['read'], ['open', 1], ['read']]
+                    if two:
+                        ops += [['open', 2], ['write', 1, data[:6].hex()], ['read']]
+                    prev = 0
+                    for c in cuts:
+                        ops += [['write', 0, data[prev:c].hex()], ['read']]
+                        prev = c
+                    for step in ('tick', 'tick', 'io', 'tick', 'tick', 'tick', 'tick', 'drain', 'io', 'drain'):
+                        ops += [[step], ['read']]
+                    if two:
+                        ops += [['write', 1, data[6:].hex()], ['read']]
+                    ops += [['drain'], ['io'], ['drain'], ['read']]
+                    yield {'kind': kind, 'cb': cb, 'data': data.hex(), 'hash': h, 'file': None, 'expected': None, 'ops': ops}
 
 
 def interleavings(a, b):
@@ -850,6 +906,179 @@ def load_corpus():
     return out
 
 
+# ----------------------------------------------------------------------------------------------
+# "announced only if": the real BlobManager + SQLiteStorage + blob_completed, several blobs, failed downloads,
+# what get_blobs_to_announce would hand to the BlobAnnouncer under both settings of announce_head_and_sd_only
+# ----------------------------------------------------------------------------------------------
+
+FATES = ['correct', 'correct', 'flip_mid', 'flip_last', 'truncated', 'overlong', 'untouched', 'correct_two_peers']
+HALF_EXPIRATION = 43200
+
+
+def delivers(chunks, data):
+    """does this chunk sequence hand a writer exactly `data` at a chunk boundary before it overflows?"""
+    got = b''
+    for c in chunks:
+        got += c
+        if len(got) > len(data):
+            return False
+        if len(got) == len(data):
+            return got == data
+    return False
+
+
+def gen_announce_spec(rng):
+    n = rng.randrange(3, 7)
+    blobs = []
+    for i in range(n):
+        data = bytes([i + 1]) + bytes(rng.randrange(256) for _ in range(rng.randrange(1, 200)))
+        fate = rng.choice(FATES)
+        sent = data if fate in ('correct', 'correct_two_peers', 'untouched') else make_data(rng, fate, data)
+        blobs.append({'data': data.hex(), 'fate': fate, 'chunks': [c.hex() for c in chunking(rng, sent)],
+                      'known': rng.random() < 0.7})
+    pairs = []
+    for _ in range(rng.randrange(0, 3)):
+        pairs.append(rng.sample(range(n), 2))
+    singles = [[rng.randrange(n), rng.random() < 0.5] for _ in range(rng.randrange(0, 3))]
+    return {'announce': True, 'save_blobs': rng.random() < 0.8, 'blobs': blobs, 'should_pairs': pairs, 'singles': singles,
+            'first_setting': rng.random() < 0.5}
+
+
+def run_announce(spec):
+    """returns (fails, recorded table operations, [(head_and_sd_only, now, sorted ids handed to the announcer)])"""
+    fails, ops, results = [], [], []
+    root = tempfile.mkdtemp(prefix='c01a_')
+    loop = asyncio.new_event_loop()
+    asyncio.set_event_loop(loop)
+    now = [1000.0]
+    datas = [bytes.fromhex(b['data']) for b in spec['blobs']]
+    hashes = [hashlib.sha384(d).hexdigest() for d in datas]
+    ident = {hx: i for i, hx in enumerate(hashes)}
+
+    async def main():
+        blob_dir = os.path.join(root, 'blobfiles')
+        os.mkdir(blob_dir)
+        conf = Config(data_dir=root, wallet_dir=root, download_dir=root, config=os.path.join(root, 'settings.yml'))
+        conf.save_blobs = spec['save_blobs']
+        storage = SQLiteStorage(conf, os.path.join(root, 'lbrynet.sqlite'), time_getter=lambda: now[0])
+        await storage.open()
+        mgr = BlobManager(loop, blob_dir, storage, conf)
+        await mgr.setup()
+        tasks = []
+        real_completed = mgr.blob_completed
+
+        def completed(blob):                       # observe the completion callback, then let the real one run
+            ops.append(['add', ident[blob.blob_hash], isinstance(blob, BlobFile)])
+            t = real_completed(blob)
+            tasks.append(t)
+            return t
+        mgr.blob_completed = completed
+        known = [(hashes[i], len(datas[i]), 0, 0) for i, b in enumerate(spec['blobs']) if b['known']]
+        if known:                                  # what store_stream does for the blobs of a descriptor
+            await storage.add_blobs(*known, finished=False)
+            ops.extend(['add', ident[k[0]], False] for k in known)
+        good = set()
+        feeds = []
+        for i, b in enumerate(spec['blobs']):
+            if b['fate'] == 'untouched':
+                continue
+            blob = mgr.get_blob(hashes[i], len(datas[i]))
+            w = blob.get_blob_writer('10.0.0.%d' % (i + 1), 3333)
+            feeds.append([w, [bytes.fromhex(c) for c in b['chunks']]])
+            if b['fate'] == 'correct_two_peers':
+                w2 = blob.get_blob_writer('10.0.1.%d' % (i + 1), 3333)
+                feeds.append([w2, [datas[i]]])
+            if b['fate'] == 'correct_two_peers' or delivers([bytes.fromhex(c) for c in b['chunks']], datas[i]):
+                good.add(i)
+        k = 0
+        while any(f[1] for f in feeds):            # round-robin over the peers, yielding to the loop now and then
+            for f in feeds:
+                if f[1]:
+                    try:
+                        f[0].write(f[1].pop(0))
+                    except OSError:
+                        f[1] = []
+            k += 1
+            if k % 3 == 0:
+                await asyncio.sleep(0)
+        for i in sorted(good):
+            try:
+                await asyncio.wait_for(mgr.get_blob(hashes[i]).verified.wait(), 10)
+            except asyncio.TimeoutError:
+                fails.append(f'blob {i}: a complete correct copy was delivered but the blob did not become verified')
+        for _ in range(5):
+            await asyncio.sleep(0)
+        if tasks:
+            await asyncio.gather(*tasks, return_exceptions=True)
+        for a, b in spec['should_pairs']:
+            await storage.set_announce(hashes[a], hashes[b])
+            ops.extend([['should', a], ['should', b]])
+        for i, imm in spec['singles']:
+            await storage.should_single_announce_blobs([hashes[i]], immediate=imm)
+            ops.append(['single', i, imm, int(now[0])])
+
+        async def ask(head):
+            conf.announce_head_and_sd_only = head
+            got = sorted(ident.get(hx, -1) for hx in await storage.get_blobs_to_announce())
+            results.append([head, int(now[0]), got])
+            ops.append(['query', head, int(now[0])])
+            for i in got:
+                stored = None
+                path = os.path.join(blob_dir, hashes[i]) if i >= 0 else None
+                if path and os.path.isfile(path):
+                    with open(path, 'rb') as f:
+                        stored = f.read()
+                if i not in good:
+                    fails.append(f'announce_head_and_sd_only={head}: blob {i} ({spec["blobs"][i]["fate"]}) is handed to the '
+                                 f'announcer although no complete correct copy of it was received')
+                elif stored is None or sha(stored).hex() != hashes[i] or len(stored) != len(datas[i]):
+                    fails.append(f'announce_head_and_sd_only={head}: blob {i} is handed to the announcer but the blob '
+                                 f'directory does not hold its bytes')
+            return got
+        first = spec['first_setting']
+        await ask(first)
+        got = await ask(not first)
+        got = sorted(set(got) | set(results[-2][2]))
+        if got:                                    # the announcer reports success: not due again for half the expiration
+            await storage.update_last_announced_blobs([hashes[i] for i in got if i >= 0])
+            ops.extend(['announced', i, int(now[0])] for i in got if i >= 0)
+        await ask(False)
+        now[0] += HALF_EXPIRATION + 2
+        await ask(True)
+        await ask(False)
+        for w, _ in feeds:
+            w.close_handle()
+        mgr.stop()
+        await storage.close()
+
+    try:
+        loop.run_until_complete(main())
+    finally:
+        try:
+            loop.run_until_complete(loop.shutdown_default_executor())
+        except Exception:  # noqa
+            pass
+        asyncio.set_event_loop(None)
+        loop.close()
+        shutil.rmtree(root, ignore_errors=True)
+    return fails, ops, results
+
+
+def judge_announce(run, model, spec):
+    fails, ops, results = run_announce(spec)
+    run.case(spec, nontrivial=True)
+    run.count('cases:announce')
+    run.count('announce:save_blobs=%s' % spec['save_blobs'])
+    for r in results:
+        run.count('announce:handed-out', len(r[2]))
+    if fails:
+        for what in fails[:5]:
+            run.violation(spec, what, signature={'case': hashlib.sha1(vlib.canon(spec).encode()).hexdigest()})
+        return
+    mod = model.call('announce', ops=ops)
+    run.compare('C01.announce', spec, [r[2] for r in results], [sorted(x) for x in mod])
+
+
 def main(run):
     model = vlib.Model('C01', oracles={'sha384': sha})
     rng = run.rng
@@ -857,17 +1086,29 @@ def main(run):
                 'random bytes, 1-3 writers (sometimes the same peer twice) each sending correct / one bit flipped at the '
                 'first, middle or last byte / truncated / over-long by 1..7 / unrelated / empty data in a random chunking '
                 '(whole, 1-byte, boundary cuts, empty chunks), chunk writes interleaved at random with loop iterations '
-                '(tick), full drains, executor completions (io), close_handle, blob.close, reads, delete(), re-opens of the same peer and '
+                '(tick), full drains, executor completions (io) - the executor job may stay queued across `advance` operations of '
+                '1-60 s on the loop\'s virtual clock -, close_handle, blob.close, reads, delete(), re-opens of the same peer and '
                 'set_length with valid and invalid values, always ending in drain; io; drain; every object comes from the real '
                 'BlobManager.get_blob(hash, expected), 12% of them over a directory already holding an intact / truncated / '
                 'over-long file (restart), 18% with the length known at creation; every 8th case downloads the same object '
-                '2-3 times with a reset (BlobBuffer reader consuming it / delete()) in between. Then every interleaving of '
+                '2-3 times with a reset (BlobBuffer reader consuming it / delete()) in between. A deterministic family (24 cases) '
+                'attempts a read after every operation of a delivery advanced one loop iteration at a time. Then every interleaving of '
                 '2 writers x 1-3 chunks x 5 data kinds on a 3-byte blob. distinct = distinct (kind, data, op list); '
-                'non-trivial = at least one chunk was accepted by a writer. Monitor-only: 2 MiB and 2 MiB+1 blobs.')
+                'non-trivial = at least one chunk was accepted by a writer. Monitor-only: 2 MiB and 2 MiB+1 blobs. Announce: '
+                '3-6 blobs on the real BlobManager + SQLiteStorage with the real blob_completed, each known from a descriptor '
+                '(pending row) or not, receiving correct / corrupted / truncated / over-long / no data from 1-2 peers; what '
+                'get_blobs_to_announce hands out is observed under both settings of announce_head_and_sd_only, after '
+                'update_last_announced_blobs, and again after half the expiration time.')
     for nm, case in load_corpus():
+        if case.get('announce'):
+            judge_announce(run, model, case)
+            continue
         c, trace, mon = run_fixed(case)
         judge(run, model, c, trace, mon, 'corpus')
-    n_rand = vlib.scaled(run.tier, 7000, 200000)
+    for case in read_everywhere_family():
+        c, trace, mon = run_fixed(case)
+        judge(run, model, c, trace, mon, 'read-everywhere')
+    n_rand = vlib.scaled(run.tier, 5000, 200000)
     for n in range(n_rand):
         if n % 8 == 7:
             case, trace, mon = gen_redownload(rng, run)
@@ -893,6 +1134,8 @@ def main(run):
         run.count('cases:full-size')
         if mon.bad:
             run.violation(desc, mon.bad, signature=desc)
+    for _ in range(vlib.scaled(run.tier, 120, 2500)):
+        judge_announce(run, model, gen_announce_spec(rng))
     run.partial = []
     run.supporting = {'oracle_calls': model.oracle_calls}
     model.close()
@@ -900,7 +1143,9 @@ def main(run):
 
 def replay(run, case):
     model = vlib.Model('C01', oracles={'sha384': sha})
-    if case.get('big'):
+    if case.get('announce'):
+        judge_announce(run, model, case)
+    elif case.get('big'):
         desc, mon = big_case(run, run.rng, case['kind'], case['size'], case['variant'])
         run.case(desc)
         if mon.bad:
